@@ -209,8 +209,10 @@ class SimulatorWorkerThread(Thread):
                             # a stop() issued while the simulator was 
                             # starting (by a listener) is not overwritten:
                             # the run pauses before its first event
-                            if self._job._run_state != RunState.STOPPING:
-                                self._job._run_state = RunState.STARTED
+                            with self._job._state_lock:
+                                if (self._job._run_state 
+                                        != RunState.STOPPING):
+                                    self._job._run_state = RunState.STARTED
                             self._job._run()
                         if not self._finalized:
                             self._job.fire_timed(self._job.simulator_time,
@@ -258,6 +260,10 @@ class Simulator(EventProducer, SimulatorInterface, Generic[TIME]):
         self._model: ModelInterface = None
         self._run_state: RunState = RunState.NOT_INITIALIZED
         self._replication_state = ReplicationState.NOT_INITIALIZED
+        # guards the run state transitions on which the thread that calls 
+        # stop() and the worker thread have to agree (never held while 
+        # listeners are notified)
+        self._state_lock = threading.Lock()
         self.__worker: Thread = None
         self._initial_time = initial_time
         self._initial_methods: list[SimEventInterface] = []
@@ -463,7 +469,11 @@ class Simulator(EventProducer, SimulatorInterface, Generic[TIME]):
 
     def _stop_impl(self):
         """Implementation of the stop behavior."""
-        self._run_state = RunState.STOPPING
+        with self._state_lock:
+            # (stop() has made this transition already; the worker thread
+            # may even have completed the pause in the meantime)
+            if self.is_starting_or_running():
+                self._run_state = RunState.STOPPING
         if threading.current_thread() is self.__worker:
             # called from within the run (by an event or a listener): the 
             # run loop stops after the current event; waiting here would be
@@ -480,8 +490,12 @@ class Simulator(EventProducer, SimulatorInterface, Generic[TIME]):
         """Stops the simulator, and fire a STOP_EVENT that the simulator 
         was stopped. Note that when the simulator was already stopped an 
         exception will be thrown, and no event will be fired."""
-        if self.is_stopping_or_stopped():
-            raise DSOLError("cannot stop an already stopped simulator")
+        with self._state_lock:
+            # test and transition in one step: the worker thread may be
+            # about to pause or to end the replication by itself
+            if self.is_stopping_or_stopped():
+                raise DSOLError("cannot stop an already stopped simulator")
+            self._run_state = RunState.STOPPING
         self.fire(Simulator.STOPPING_EVENT, None)
         self._stop_impl()
      
@@ -676,16 +690,21 @@ class DEVSSimulator(Simulator[TIME], Generic[TIME]):
                 t = self.eventlist().peek_first().time
             if (t > until or (t == until and not including) 
                     or self.eventlist().is_empty()):
-                # the clock never moves backwards
-                if until > self._simulator_time:
-                    self._simulator_time = until
-                    # no listener has been told about this time: an event
-                    # at the bound is announced when the run is resumed
-                    self._time_announced = False
-                # the replication only ends when its end time was reached
-                if until >= end_time and including:
-                    self._replication_state = ReplicationState.ENDING
-                self._run_state = RunState.STOPPING
+                with self._state_lock:
+                    if self.is_stopping_or_stopped():
+                        # a stop() came in first: pause here, the rest of
+                        # this step is done when the run is resumed
+                        return
+                    # the clock never moves backwards
+                    if until > self._simulator_time:
+                        self._simulator_time = until
+                        # no listener has been told about this time: an 
+                        # event at the bound is announced on resumption
+                        self._time_announced = False
+                    # the replication only ends when its end was reached
+                    if until >= end_time and including:
+                        self._replication_state = ReplicationState.ENDING
+                    self._run_state = RunState.STOPPING
                 return;
             # get the first event
             event: SimEventInterface = self.eventlist().pop_first()
